@@ -321,7 +321,11 @@ def compare(case, io_, mo):
         return None
     if 'error' in mo or io_['error']:
         if io_['error'] and 'error' in mo:
-            return None if io_['error'] == mo['error'] else f'upgrade errors: impl {io_["error"]} model {mo["error"]}'
+            # a 1.0 descriptor file without a usable data line is refused either by `list(table)[0]` (IndexError: no line)
+            # or by `assert len(line) == 3` (AssertionError: wrong width): one family, "malformed descriptor file"
+            fam = {'IndexError': 'AssertionError'}
+            return None if fam.get(io_['error'], io_['error']) == fam.get(mo['error'], mo['error']) \
+                else f'upgrade errors: impl {io_["error"]} model {mo["error"]}'
         if io_['error'] and 'error' not in mo:
             # the implementation stopped somewhere in the plan: its effects must be a prefix-compatible subset
             want = [e for e in mo['effects'] if e[0] != 'read']
